@@ -157,6 +157,12 @@ def cases(tier, seed):
                         if kind == "rel" and mnem != "LBNE" and n > 120:
                             continue
                         yield {"shape": "ref", "mnem": mnem, "kind": kind, "dir": direction, "n": n, "k": 0, "org": org, "ind": ind, "org_after": True}
+    # (b7) a PCR operand that names the label of its OWN line, with a constant around the 8/16-bit limit (the distance is then made
+    #      of the statement itself and the constant only)
+    for mnem in ("LEAX", "LDY", "LDA", "CMPU", "LDX", "JMP"):
+        for ind in (False, True):
+            for k in list(range(-136, -116)) + list(range(118, 140)):
+                yield {"shape": "ref", "mnem": mnem, "kind": "pcr", "dir": "self", "n": 0, "k": k, "org": None, "ind": ind}
     # (b6) the target label spelt like a register name or with a leading digit (legal label names; only A, B, D before ,PCR are not)
     for tname in ("X", "Y", "U", "S", "PC", "DP", "CC", "PCR", "9LIVES", "2ND", "EACH", "DH", "FACE"):
         for mnem, kind in (("LEAX", "pcr"), ("LDY", "pcr"), ("BNE", "rel"), ("LBRA", "rel")):
